@@ -678,7 +678,7 @@ def send_request(u):
     u.raw(SEND)
     src = read_src(CN)
     i = src.index('impl tower::Service<Request<Body>> for SendRequest')
-    call_txt, bodies = lift_async(src[i:], r'fn call\(&mut self, req: Request<Body>\) -> Self::Future \{', [(r'\{ fut\.await\.map_err\(Into::into\)\.map\(\|res\| res\.map\(Body::new\)\) \}', 'verif_answer', 'fut')])
+    call_txt, bodies = lift_async(src[i:], r'fn call\(&mut self, req: Request<Body>\) -> Self::Future \{', [(r'\{ fut\.await\.map_err\(Into::into\)\.map\(\|res\| .*\) \}', 'verif_answer', 'fut')])
     VS = virt(u, CN, 'R28',
               'impl SendRequest {\n    ' + call_txt + '\n}\n'
               'async fn verif_answer<F: Future<Output = Result<Response<Incoming>, HyperError>>>(fut: F) -> Result<Response<Body>, BoxError> ' + bodies['verif_answer'] + '\n')
